@@ -8,9 +8,10 @@ BASE = os.path.join(VERIF, "seeded")
 # a change anchored in the sampling loop is also run against the sibling loop properties,
 # to see that they stay quiet unless their own statement is broken
 EXTRA = {"C03": ["C04", "C19"], "C04": ["C03", "C19"], "C19": ["C03", "C04"], "C01": ["C02"], "C02": ["C01"]}
+REPO = os.environ.get("VERIF_REPO", "/repo")   # a scratch worktree may be used instead of /repo (then the checks run against it too)
 def main():
     only = sys.argv[1:]
-    lock = open("/tmp/verif-repo.lock", "w"); fcntl.flock(lock, fcntl.LOCK_EX)
+    lock = open("/tmp/verif-repo.lock" if REPO == "/repo" else "/tmp/verif-repo-alt.lock", "w"); fcntl.flock(lock, fcntl.LOCK_EX)
     rp = os.path.join(BASE, "results.json")
     results = json.load(open(rp)) if os.path.exists(rp) else {}
     claimed = {c["property_id"] for c in json.load(open(os.path.join(VERIF, "MANIFEST.json")))["checks"]}
@@ -19,9 +20,9 @@ def main():
         if not os.path.exists(p) or (only and d not in only):
             continue
         prop = d.split("-")[0]
-        if subprocess.run(["git", "-C", "/repo", "status", "--porcelain"], capture_output=True, text=True).stdout.strip():
-            print("/repo dirty; abort"); return 3
-        if subprocess.run(["git", "-C", "/repo", "apply", p]).returncode != 0:
+        if subprocess.run(["git", "-C", REPO, "status", "--porcelain"], capture_output=True, text=True).stdout.strip():
+            print(REPO, "dirty; abort"); return 3
+        if subprocess.run(["git", "-C", REPO, "apply", p]).returncode != 0:
             print(d, "patch does not apply"); continue
         res = {}
         try:
@@ -36,7 +37,7 @@ def main():
                             "undecided": [l[:300] for l in lines if l.startswith("UNDECIDED")][:4]}
                 print(d, pid, "exit", r.returncode, flush=True)
         finally:
-            subprocess.run(["git", "-C", "/repo", "checkout", "--", "."])
+            subprocess.run(["git", "-C", REPO, "checkout", "--", "."])
         results[d] = res
         json.dump(results, open(rp, "w"), indent=1)
     # evidence files were rewritten by runs on changed trees: they must be regenerated on the clean tree afterwards
